@@ -3,7 +3,7 @@ from collections import Counter
 
 from ..backends import BACKENDS, Store
 from ..gen import bucket_ids, canon, floor_ms, mk_event, rand_grid
-from ._st import obs, raw_uids, raw_view
+from ._st import dump_store, obs, raw_uids, raw_view
 
 ID = "C02"
 LEVEL = "exploration"
@@ -112,7 +112,7 @@ def gen_case(rng, ctx):
                 burst.append(dict(op="replace", b=b, pick=-2, ev=ev(), rel="older"))
         at = rng.randrange(0, len(ops) + 1)
         ops[at:at] = burst
-    return dict(backend=backend, nb=nb, ops=ops, quiet=rng.random() < 0.35, names=bucket_ids(rng, nb, 0.7))
+    return dict(backend=backend, nb=nb, ops=ops, quiet=rng.random() < 0.35, names=bucket_ids(rng, nb, 0.7), twin=rng.random() < 0.2)
 
 
 def _pick(pick, m):
@@ -217,6 +217,15 @@ def run_case(case, ctx):
     viols = []
     flags = set()
     kinds = set()
+    twin = twin0 = None
+    if case.get("twin") and backend != "peewee":      # (peewee's database object is a module global: one store per process)
+        # another Datastore of the same kind, created FIRST, alive for the whole history, holding buckets of the same ids
+        twin = Store(backend, ctx.tmp)
+        for i, bid in enumerate(case.get("names") or [f"bucket-{i}" for i in range(case["nb"])]):
+            tb = twin.ds.create_bucket(bid, type="twin", client="twin", hostname="twin")
+            tb.insert(mk_event(dict(ts=10**15 + i * 1000, dur=1000, data={"twin": i})))
+        twin0 = dump_store(twin.ds)
+        ctx.count("histories_next_to_a_twin_datastore")
     with Store(backend, ctx.tmp) as st:
         ds = st.ds
         quiet = bool(case.get("quiet")) and backend != "memory"
@@ -349,6 +358,12 @@ def run_case(case, ctx):
                 flags.add("nested")
         if quiet and not viols:
             compare(ds, model, ever, viols, "at the end of a quiet history", ctx)
+        if twin is not None:
+            try:
+                if not viols and dump_store(twin.ds) != twin0:
+                    viols.append(("another-datastore-of-the-process-changed", f"twin before={twin0!r:.300} after={dump_store(twin.ds)!r:.300}"))
+            finally:
+                twin.close()
     viols = [(f"{backend}:{k}", d) for k, d in viols]
     if case["nb"] > 1:
         flags.add("multi-bucket")
